@@ -528,6 +528,28 @@ Definition eMIds (l : list mhit) : list Z := eList (fun h => [m_id h]) l.
 Definition eFIds (l : list fhit) : list Z := eList (fun h => [f_id h]) l.
 Definition eDIds (l : list dhit) : list Z := eList (fun h => [d_id h]) l.
 
+(* ------------------------------------------------------------------ find_hmmer_hits: the two filters in sequence
+     results, results_by_id = filter_results(results, results_by_id, equivalence_groups)   # competition of profiles
+     results, results_by_id = filter_result_multiple(results, results_by_id)               # best hit per profile
+   (the per-gene lists the first one leaves are what the second one scans).  find_hits_filters_swapped is the
+   order a seeded change of round 6 used: a profile's best-scoring hit is picked BEFORE the competition, so a profile
+   that wins one domain and scores higher but loses on another domain disappears from the gene *)
+Definition to_mhit (h : fhit) : mhit := mkMH (f_id h) (f_prof h) (f_hs h) (f_sc h).
+Definition find_hits_filters (eqgs : list (list Z)) (results : list fhit) (by_id : list (list fhit))
+  : res (list mhit * list (list mhit)) :=
+  do r <- filter_results eqgs results by_id;
+  Ok (filter_result_multiple (map (map to_mhit) (snd r))).
+(* what find_hmmer_hits returns: per gene the surviving hits in the order of the final `results` list (sorted by
+   hit_start); a gene without survivors has no entry (an empty list here) *)
+Definition find_hits_view (out : list mhit * list (list mhit)) : list (list Z) :=
+  map (fun g => map m_id (filter (fun h => existsb (Z.eqb (m_id h)) (map m_id g)) (fst out))) (snd out).
+Definition find_hits_filters_swapped (eqgs : list (list Z)) (results : list fhit) (by_id : list (list fhit))
+  : res (list Z * list (list Z)) :=
+  let kept := map m_id (fst (filter_result_multiple (map (map to_mhit) by_id))) in
+  let keep := fun h => existsb (Z.eqb (f_id h)) kept in
+  do r <- filter_results eqgs (filter keep results) (map (filter keep) by_id);
+  Ok (map f_id (fst r), map (map f_id) (snd r)).
+
 Definition run_refine (neighbour : bool) (l : list Z) : list Z :=
   match dPair (dList dPEntry) (dList dGHit) l with
   | Some ((t, hits), []) =>
@@ -597,6 +619,12 @@ Definition run_C13 (fn : Z) (l : list Z) : list Z :=
          end
   | 6 => match dList (dPair dZ (dList dDH)) l with
          | Some (cds, []) => 0 :: eList (fun c => fst c :: eDIds (snd c)) (filter_docking cds)
+         | _ => bad_input
+         end
+  | 8 => (* the two filters in the order find_hmmer_hits applies them *)
+         match dPair (dList (dList dZ)) (dPair (dList dFH) (dList (dList dFH))) l with
+         | Some ((eqgs, (results, by_id)), []) =>
+           eRes (fun r => eList (fun ids => eList (fun i => [i]) ids) (find_hits_view r)) (find_hits_filters eqgs results by_id)
          | _ => bad_input
          end
   | 7 => (* HMMResult.merge itself *)
